@@ -19,7 +19,7 @@ type c06Point struct {
 	T   int `json:"t_s"`
 	V   int `json:"v"`
 	Opt int `json:"opt"` // -1: field absent
-	Gap bool `json:"gap_after,omitempty"` // the writer pauses 2 virtual seconds after this point (longer than the idle barrier)
+	Gap bool `json:"gap_after,omitempty"` // the writer pauses 2 virtual minutes after this point (the idle barrier fires after 30s; the whole backlog of a run takes well under a second of virtual time even with slow sinks)
 }
 
 type c06Group struct {
@@ -58,8 +58,8 @@ var c06Nodes = []string{
 	"|window().period(3s).every(3s)\n    |mean('w')",
 	"|cumulativeSum('w')",
 	"|difference('w')",
-	"|barrier().idle(1500ms).delete(TRUE)\n    |stateCount(lambda: \"v\" >= 0)",
-	"|barrier().idle(1500ms).delete(TRUE)\n    |eval(lambda: count()).as('c').keep()",
+	"|barrier().idle(30s).delete(TRUE)\n    |stateCount(lambda: \"v\" >= 0)",
+	"|barrier().idle(30s).delete(TRUE)\n    |eval(lambda: count()).as('c').keep()",
 }
 
 func lpEscape(s string) string {
@@ -83,6 +83,14 @@ func c06Gen(c *Ctx) *c06Scenario {
 			hasAlert = true
 		}
 		sc.Chain = append(sc.Chain, nd)
+	}
+	for _, nd := range sc.Chain {
+		if strings.HasPrefix(nd, "|barrier") {
+			// the barrier is driven by the wall clock: downstream of it, windows are also emitted on its messages, whose
+			// number after the last point depends on when the run ends; keep this form on its own
+			sc.Chain = []string{nd}
+			break
+		}
 	}
 	as := []string{"1", "1,b=2", "x y", "1,b", "q=r"}
 	bs := []string{"3", "2,b=3", "3 ", "=2,b=3"}
@@ -204,7 +212,7 @@ func c06Run(c *Ctx, sc *c06Scenario, only int) (map[int][]string, Verdict) {
 						verdict = Fail("harness/setup", "write rejected %d: %s", code, line)
 					}
 					if p.Gap {
-						time.Sleep(2 * time.Second)
+						time.Sleep(2 * time.Minute)
 					}
 				}
 			}(gi, gr)
@@ -418,7 +426,7 @@ func init() {
 	Register(&Prop{
 		ID:  "C06",
 		Run: runC06,
-		Rule: "case = from().groupBy('a') or ('a','b') [+groupByMeasurement], or a groupBy(*) node over series that share a and b and differ in whether (and with which value) they carry a third tag, followed by 1-3 nodes from 14 grouping-aware node forms (where, eval with the stateful functions sigma/count/spread, stateCount, stateDuration, derivative, changeDetect, sample, window+sum, alert with stateChangesOnly, an idle barrier that deletes a silent group (writers pause longer than the idle time after a fifth of their points) in front of stateCount / count(), predicates and evals over a field that is present in only some points, default, and window+sum/mean, cumulativeSum, difference over a field that is a float in some groups and an integer in others) over 2-4 groups whose tag values contain ',', '=', spaces and prefixes of one another (including pairs that serialise to the same 'k=v,k=v' string); run A feeds all groups with one concurrent writer each, runs B_g feed group g alone, every run under its own seeded schedule and sync.Pool behaviour; " +
+		Rule: "case = from().groupBy('a') or ('a','b') [+groupByMeasurement], or a groupBy(*) node over series that share a and b and differ in whether (and with which value) they carry a third tag, followed by 1-3 nodes from 14 grouping-aware node forms (where, eval with the stateful functions sigma/count/spread, stateCount, stateDuration, derivative, changeDetect, sample, window+sum, alert with stateChangesOnly, an idle barrier (30s) that deletes a silent group (writers pause 2 virtual minutes after a fifth of their points) in front of stateCount / count(), predicates and evals over a field that is present in only some points, default, and window+sum/mean, cumulativeSum, difference over a field that is a float in some groups and an integer in others) over 2-4 groups whose tag values contain ',', '=', spaces and prefixes of one another (including pairs that serialise to the same 'k=v,k=v' string); run A feeds all groups with one concurrent writer each, runs B_g feed group g alone, every run under its own seeded schedule and sync.Pool behaviour; " +
 			"one case in eight instead rewrites the group-by tag after the groupBy (default().tag) for points written with and without the tag by two concurrent writers and requires one per-group counter (count(), stateCount, cumulativeSum) over their union; " +
 			"non-trivial = some group produced output; distinct = distinct (scenario, interleaving signatures) tuples",
 		Real:        []string{"FromNode/groupBy, edge.GroupedConsumer, models.ToGroupID", "WhereNode, EvalNode + tick/stateful (Expression.CopyReset, ScopePool), StateTracking nodes, DerivativeNode, ChangeDetectNode, SampleNode, WindowNode + InfluxQLNode, AlertNode, DefaultNode", "TaskMaster, httpd write endpoint"},
